@@ -346,3 +346,12 @@ def c38(ctx):
                 "returned weights against the exactness equations sum_i w[i,k]*(g_i-a)^m = k!*[m=k] for all m < n, "
                 "k <= max order, in exact rational arithmetic")
     simple(ctx, "MC_C38", "Trace_C38", floor=0.9)
+
+
+@plan("C46")
+def c46(ctx):
+    ctx.rule = ("TLC enumerates all 1x2 matrices over -3..3, all 1x3 and 2x2 over -2..2, seeded 2x3 over -2..2, 1x4, "
+                "2x4 and 3x3 over small entries; TLC computes the Hilbert basis by definition (all non-zero vectors "
+                "of a box that dominates every minimal solution, minimal under the componentwise order) and demands "
+                "that homogeneous_lde returns exactly that set, every vector once")
+    simple(ctx, "MC_C46", "Trace_C46", floor=0.9)
